@@ -146,6 +146,13 @@ var skeletonFuncs = [][3]string{
 	{"lfsc/backup_client.go", "BackupClient", "FetchSnapshot"},
 	{"lfsc/backup_client.go", "BackupClient", "doRequest"},
 	{"lfsc/backup_client.go", "", "readResponseError"},
+	// the mount side of the halt lock (C13)
+	{"fuse/lock_node.go", "LockHandle", "LockWait"},
+	{"fuse/lock_node.go", "LockHandle", "lockWaitHalt"},
+	{"fuse/lock_node.go", "LockHandle", "Unlock"},
+	{"fuse/lock_node.go", "LockHandle", "unlockHalt"},
+	{"fuse/lock_node.go", "LockHandle", "Flush"},
+	{"fuse/lock_node.go", "LockHandle", "QueryLock"},
 }
 
 // genSkeletons renders, for each listed function, its control skeleton in source order:
